@@ -100,8 +100,9 @@ func specTerm(s *tls.ClientHelloSpec, importMode bool) (string, bool) {
 }
 
 type runner struct {
-	c *vh.Ctx
-	r *rand.Rand
+	c           *vh.Ctx
+	r           *rand.Rand
+	validBodies map[uint16][][]byte // per extension id: bodies the type's own Read produced (a few)
 }
 
 // usable: ApplyPreset + BuildHandshakeState of the returned spec must not panic.
@@ -242,6 +243,10 @@ func (rn *runner) extBytes(maxSize int) []byte {
 			}
 		})
 		if !p && b != nil {
+			id := binary.BigEndian.Uint16(b)
+			if len(rn.validBodies[id]) < 3 {
+				rn.validBodies[id] = append(rn.validBodies[id], append([]byte{}, b[4:]...))
+			}
 			return b
 		}
 	}
@@ -334,9 +339,11 @@ func (rn *runner) genHello(nExt int) hello {
 func (rn *runner) mutate(h hello) ([]byte, string) {
 	r := rn.r
 	b := append([]byte{}, h.raw...)
-	switch r.Intn(8) {
+	switch r.Intn(10) {
 	case 7:
 		return reorderExts(b, r), "reorder-or-repeat"
+	case 8, 9:
+		return shrinkExt(b, r), "shrink-ext-body"
 	case 0:
 		return b[:r.Intn(len(b)+1)], "truncate"
 	case 1:
@@ -445,12 +452,31 @@ func (rn *runner) writeSuite(n int) {
 			if real && id != 41 {
 				continue
 			}
+			var bodies [][]byte
+			for l := 0; l <= 5; l++ { // every short length
+				b := make([]byte, l)
+				rn.r.Read(b)
+				bodies = append(bodies, b)
+				if l >= 1 {
+					z := make([]byte, l) // zero length prefixes
+					bodies = append(bodies, z)
+				}
+			}
 			for k := 0; k < 4+n/8; k++ {
 				body := make([]byte, rn.r.Intn(40))
 				rn.r.Read(body)
 				if k%2 == 1 && len(body) >= 2 { // plausible outer vector length
 					binary.BigEndian.PutUint16(body, uint16(len(body)-2))
 				}
+				bodies = append(bodies, body)
+			}
+			for _, vb := range rn.validBodies[id] { // every proper prefix of bodies Read produced
+				for l := 0; l < len(vb) && l < 24; l++ {
+					bodies = append(bodies, vb[:l])
+				}
+				bodies = append(bodies, vb)
+			}
+			for _, body := range bodies {
 				w := extcoq.FromID(id, real)
 				if w == nil {
 					continue
@@ -468,7 +494,7 @@ func (rn *runner) writeSuite(n int) {
 }
 
 func run(c *vh.Ctx) {
-	rn := &runner{c: c, r: c.Rng}
+	rn := &runner{c: c, r: c.Rng, validBodies: map[uint16][][]byte{}}
 	thorough := c.Tier != "quick"
 	n := c.N
 	rn.rawSuite(n, thorough)
@@ -512,7 +538,6 @@ func parrots() []parrot {
 	}
 	return out
 }
-
 
 // extList follows FromRaw's path through a record and returns the extensions (id, whole
 // encoding) and the offset where the extensions vector starts; ok=false when the framing breaks.
@@ -583,6 +608,11 @@ func reorderExts(raw []byte, r *rand.Rand) []byte {
 	} else {
 		encs[i], encs[j] = encs[j], encs[i]
 	}
+	return withExts(raw, start, encs)
+}
+
+// rebuild a record from its prefix up to the extensions vector and a new extension list
+func withExts(raw []byte, start int, encs [][]byte) []byte {
 	var ex []byte
 	for _, e := range encs {
 		ex = append(ex, e...)
@@ -593,4 +623,25 @@ func reorderExts(raw []byte, r *rand.Rand) []byte {
 	binary.BigEndian.PutUint16(out[3:5], uint16(len(out)-5))
 	out[6], out[7], out[8] = byte((len(out)-9)>>16), byte((len(out)-9)>>8), byte(len(out)-9)
 	return out
+}
+
+// shrinkExt cuts the body of one extension to a random shorter length, all outer lengths consistent:
+// the hello stays well-framed and only that extension's Write sees a truncated body.
+func shrinkExt(raw []byte, r *rand.Rand) []byte {
+	_, encs, start, ok := extList(raw)
+	if !ok || len(encs) < 1 {
+		return raw
+	}
+	i := r.Intn(len(encs))
+	body := encs[i][4:]
+	if len(body) == 0 {
+		return raw
+	}
+	k := r.Intn(len(body))
+	if r.Intn(3) == 0 {
+		k = r.Intn(min(len(body), 3))
+	}
+	e := append([]byte{encs[i][0], encs[i][1], byte(k >> 8), byte(k)}, body[:k]...)
+	encs[i] = e
+	return withExts(raw, start, encs)
 }
